@@ -447,12 +447,20 @@ def min_(a, b) -> Expr:
     a, b = num(lift(a)), num(lift(b))
     if a is b:
         return a
+    from . import explore
+
+    if explore.simplify_cond(le(b, a)) is True:  # also settles the tie a == b, which le(a, b) alone leaves open
+        return b
     return ite(le(a, b), a, b)
 
 
 def max_(a, b) -> Expr:
     a, b = num(lift(a)), num(lift(b))
     if a is b:
+        return a
+    from . import explore
+
+    if explore.simplify_cond(le(b, a)) is True:
         return a
     return ite(le(a, b), b, a)
 
